@@ -563,7 +563,8 @@ def streams(ctx):
     # 1. deterministic probes of the listed findings + a regression corpus
     reqs = [refsweep.make_request(m, 1, s) for _, m, s in PROBES]
     corpus = ["x = f'''{\"\"\"a\"b\"\"\"}'''\n", "f'{\"x\" \"\"\"eric\"s\"\"\" \"y\"}'\n", "f'{x}' ''\n", "'' f'{x}'\n", "f'' ''\n",
-              "u'a' f'{x:>3}'\n", "f'{x:\\x41}'\n", "f'{x = }'\n",       # repaired by c09f12b, dfa74fc, 40fcb23, 897a1b6: regressions are violations
+              "u'a' f'{x:>3}'\n", "f'{x:\\x41}'\n", "f'{x = }'\n", "f'{x for x in y}'\n", "f'{a, b}{*a, b}{yield}{yield x}{await x}{a if b else c}'\n",
+              "f'{x for x in y!r:>{w}}'\n", "f'{x:{y for y in z}}'\n",       # repaired by c09f12b, dfa74fc, 40fcb23, 897a1b6: regressions are violations
               "match(x)\n", "match (x):\n case 1: pass\n", "case = 1\n", "type = 1\n", "print(type(x))\n", "type: int = 1\n",
               "match: int\n", "match: dict[str, int] = {}\n", "match -x:\n case 1: pass\n", "match *a, b:\n case 1: pass\n",
               "type X = int\n", "type X[T: int, *Ts, **P] = dict[T, P]\n", "def f[T](a: T) -> T: pass\n",
